@@ -47,34 +47,69 @@ var ctorMu sync.Mutex
 
 var stuckCases atomic.Int32
 
+// policies builds the PoliciesData of a label.  The label's decimal digits select the content of
+// INDEPENDENT sections, so that an update can differ from the current policies in one section only:
+//   units: global remedy   tens: accounts (token value)   hundreds: exporters (file name)
+//   thousands: global diagnosis   ten-thousands: endpoint remedy   rest: global remedy as well
+// Everything is disabled/inert (no HAProxy call); `enabled` adds one enabled endpoint remedy.
 func policies(label int64, enabled bool) *config.PoliciesData {
 	var c sharedConfig.PoliciesConfig
-	// the label lives in an inert (disabled) global remedy
-	c.Global.Remedies = []sharedConfig.Remedy{{Enabled: false, Name: "d" + strconv.FormatInt(label, 10)}}
+	g, a, e, dg, ep, hi := label%10, label/10%10, label/100%10, label/1000%10, label/10000%10, label/100000
+	c.Global.Remedies = []sharedConfig.Remedy{{Enabled: false, Name: fmt.Sprintf("g%dh%d", g, hi)}}
+	c.Global.Diagnosis = []sharedConfig.Diagnosis{{Enabled: false, Name: fmt.Sprintf("dg%d", dg), Export: "file"}}
+	c.Accounts = map[sharedConfig.AccountID]sharedConfig.Account{
+		"acct": {Tokens: []sharedConfig.Token{{Header: &sharedConfig.Header{Name: "x-api-key", Value: fmt.Sprintf("k%d", a)}}}}}
+	c.Exporters.File = &sharedConfig.FileExporterConfig{FileDir: "/tmp/verif-c11", FileName: fmt.Sprintf("e%d", e)}
+	c.Endpoints = []sharedConfig.EndpointConfig{{URL: "verif.example/ep", Method: "GET",
+		Remedies: []sharedConfig.Remedy{{Enabled: false, Name: fmt.Sprintf("ep%d", ep)}}}}
 	if enabled {
 		// an enabled endpoint remedy makes UpdatePoliciesData talk to HAProxy's admin port (closed here)
-		c.Endpoints = []sharedConfig.EndpointConfig{{URL: "verif.example/x", Method: "GET",
-			Remedies: []sharedConfig.Remedy{{Enabled: true, Name: "r"}}}}
+		c.Endpoints = append(c.Endpoints, sharedConfig.EndpointConfig{URL: "verif.example/x", Method: "GET",
+			Remedies: []sharedConfig.Remedy{{Enabled: true, Name: "r"}}})
 	}
 	return &config.PoliciesData{Config: c}
 }
 
+// labelOf reads the label back from the CONTENT of every section of the policies handed out.
 func labelOf(p *config.PoliciesData) string {
 	if p == nil {
 		return "nil"
 	}
-	if len(p.Config.Global.Remedies) != 1 || !strings.HasPrefix(p.Config.Global.Remedies[0].Name, "d") {
+	c := &p.Config
+	var g, a, e, dg, ep, hi int64
+	if len(c.Global.Remedies) != 1 || len(c.Global.Diagnosis) != 1 || len(c.Endpoints) < 1 ||
+		len(c.Endpoints[0].Remedies) != 1 || c.Exporters.File == nil {
 		return "none" // the empty &PoliciesData{}
 	}
-	return p.Config.Global.Remedies[0].Name[1:]
+	acct, ok := c.Accounts["acct"]
+	if !ok || len(acct.Tokens) != 1 || acct.Tokens[0].Header == nil {
+		return "none"
+	}
+	n := 0
+	if k, _ := fmt.Sscanf(c.Global.Remedies[0].Name, "g%dh%d", &g, &hi); k == 2 {
+		n++
+	}
+	if k, _ := fmt.Sscanf(acct.Tokens[0].Header.Value, "k%d", &a); k == 1 {
+		n++
+	}
+	if k, _ := fmt.Sscanf(c.Exporters.File.FileName, "e%d", &e); k == 1 {
+		n++
+	}
+	if k, _ := fmt.Sscanf(c.Global.Diagnosis[0].Name, "dg%d", &dg); k == 1 {
+		n++
+	}
+	if k, _ := fmt.Sscanf(c.Endpoints[0].Remedies[0].Name, "ep%d", &ep); k == 1 {
+		n++
+	}
+	if n != 5 {
+		return "none"
+	}
+	return strconv.FormatInt(g+10*a+100*e+1000*dg+10000*ep+100000*hi, 10)
 }
 
 type world struct {
 	mc       *clock.MockClock
 	acc      *config.TxnPoliciesAccessor
-	expected int  // vacuum goroutines that must be parked at quiescence
-	lookedUp bool // a VacuumKey on the pins vacuum has happened
-	updated  bool // a VacuumKey on the versions vacuum has happened
 	stuck    bool
 }
 
@@ -102,7 +137,8 @@ func (w *world) quiesce() {
 	}
 	start := time.Now()
 	for i := 0; ; i++ {
-		if pendingTimers(w.mc) == w.expected {
+		// every vacuum whose goroutine has been started (its `active` flag) must be parked on a timer
+		if pendingTimers(w.mc) == activeVacuums(w.acc) {
 			return
 		}
 		if time.Since(start) > limit {
@@ -180,10 +216,6 @@ func execCase(c proto.Case) []string {
 			}
 			t := w.nowNs()
 			p := w.acc.GetTxnPoliciesData(config.TxnID("txn-" + strconv.FormatInt(x, 10)))
-			if !w.lookedUp {
-				w.lookedUp = true
-				w.expected++
-			}
 			w.quiesce()
 			outs[i] = fmt.Sprintf("data=%s t=%d", labelOf(p), t)
 		case f[0] == "update" && len(f) == 3 && w != nil:
@@ -201,10 +233,6 @@ func execCase(c proto.Case) []string {
 					outs[i] = "err:other"
 				}
 				continue
-			}
-			if !w.updated {
-				w.updated = true
-				w.expected++
 			}
 			w.quiesce()
 			outs[i] = fmt.Sprintf("ok t=%d", t)
